@@ -214,7 +214,7 @@ def mate_xconfig(k):
 
 
 def do_mate(fx, prot, name):
-    out = prot.mate(fx.pg(), mate_xconfig(MATE[name]), 1, 2, nself=(1 if name == "TwoWayCross" else 0))
+    out = prot.mate(fx.pg(), mate_xconfig(MATE[name]), 1, 2, nself=1)   # every protocol runs its selfing loop (it draws too)
     return (out.mat, out.taxa, out.taxa_grp)
 
 
